@@ -1,7 +1,7 @@
 (* Props/C13.v — property C13: appending keeps every existing entry and adds the new ones. *)
 From Coq Require Import ZArith.
-From ZipV Require Import Base.Bytes Base.Outcome Gen.CompressionGen Gen.WriteGen Model.Readers Model.Reader Model.Writer
-     Proofs.AppendProofs.
+From ZipV Require Import Base.Bytes Base.Outcome Gen.CompressionGen Gen.TypesGen Gen.WriteGen Model.Readers Model.Reader Model.Writer
+     Proofs.AppendProofs Proofs.CentralRoundtrip.
 Open Scope N_scope.
 
 (* opening for append re-hydrates exactly the directory the reader sees, keeps the bytes, positions the sink on
@@ -26,3 +26,20 @@ Theorem C13_old_record : forall f,
 Proof. intro f. cbn. repeat split. Qed.
 Print Assumptions C13_old_record.
 
+
+(* the record re-emitted for an old entry is read back with the old values: instance of the central-record round trip
+   (C01_central_record_roundtrip) for the record new_append re-hydrated.  Name: the decoded old name, re-encoded as
+   UTF-8 and flagged as such when it is not ASCII; comment: dropped (see DESIGN.md 13.3). *)
+Theorem C13_reemitted_record_roundtrip : forall g ao cs pre post,
+  wf_central (wfile_of_zfd g) ao -> central_header_chunks (wfile_of_zfd g) = Ok cs ->
+  exists d dt, parse_central (pre ++ concat cs ++ post) (len pre) ao = Ok (decoded (wfile_of_zfd g) dt ao (len pre), len pre + len (concat cs)) /\
+               DateTime_from_msdos d (DateTime_timepart (f_time g)) = Some dt /\
+               f_method (decoded (wfile_of_zfd g) dt ao (len pre)) = f_method g /\ f_crc (decoded (wfile_of_zfd g) dt ao (len pre)) = f_crc g /\
+               f_usize (decoded (wfile_of_zfd g) dt ao (len pre)) = f_usize g /\ f_csize (decoded (wfile_of_zfd g) dt ao (len pre)) = f_csize g /\
+               f_header_start (decoded (wfile_of_zfd g) dt ao (len pre)) = f_header_start g + ao /\
+               f_ext_attr (decoded (wfile_of_zfd g) dt ao (len pre)) = f_ext_attr g /\ f_name_raw (decoded (wfile_of_zfd g) dt ao (len pre)) = f_name g.
+Proof.
+  intros g ao cs pre post W H. destruct (central_roundtrip _ _ _ pre post W H) as (d & dt & _ & Hdt & Hp).
+  exists d, dt. split; [exact Hp|]. split; [exact Hdt|]. cbn. repeat split.
+Qed.
+Print Assumptions C13_reemitted_record_roundtrip.
